@@ -1,5 +1,5 @@
-(** C12: the watcher model meets the specification -- the current code inside the
-    guard, the repaired variant everywhere. *)
+(** C12: the watcher model meets the specification -- the code in /repo ([current])
+    everywhere; the code before the fixes ([before_fix]) only inside the guard. *)
 From InvokeVerif Require Import Model.WatchModel Spec.C12Spec Proofs.C12_regex.
 From Coq Require Import Lia.
 
@@ -40,7 +40,7 @@ Proof.
     - unfold N. rewrite app_assoc. reflexivity.
     - unfold N. repeat rewrite <- app_assoc in *. exact EM. }
   destruct (fix_index v) eqn:FI.
-  - (* repaired: index := end of the last match *)
+  - (* index := end of the last match *)
     eexists; split; [reflexivity|].
     destruct (last_end (marks q 0 N)) as [|j] eqn:LE.
     + rewrite Nat.add_0_r. apply Stay. apply last_end_zero. assumption.
@@ -61,7 +61,7 @@ Proof.
       * unfold occ. pose proof (count_after_last_end (marks q 0 N)) as CA.
         rewrite LE, marks_st, T in CA. exact CA.
   - destruct (Nat.ltb 0 (news q (B1 ++ B2) c)) eqn:LT.
-    + (* current code: index := end of the read *)
+    + (* before the fix: index := end of the read *)
       eexists; split; [reflexivity|].
       apply Nat.ltb_lt in LT.
       destruct G as [G|[G|G]]; [discriminate | lia |].
@@ -272,19 +272,19 @@ Proof.
   rewrite W, IH. destruct (raises ws resp B c); reflexivity.
 Qed.
 
-Theorem repaired_meets_spec ws sched how :
-  spec_ok ws sched how (fst (run repaired ws sched)) (snd (run repaired ws sched))
-          (outcome_exn how (snd (run repaired ws sched))) = true.
+Theorem current_meets_spec ws sched how :
+  spec_ok ws sched how (fst (run current ws sched)) (snd (run current ws sched))
+          (outcome_exn how (snd (run current ws sched))) = true.
 Proof.
-  apply (run_meets_spec repaired). unfold guard. cbn [fix_index fix_tried repaired].
+  apply (run_meets_spec current). unfold guard. cbn [fix_index fix_tried current].
   rewrite !guard_stream_repaired. reflexivity.
 Qed.
 
-Theorem current_meets_spec_in_guard ws sched how :
+Theorem before_fix_meets_spec_in_guard ws sched how :
   guard false false ws sched = true ->
-  spec_ok ws sched how (fst (run current ws sched)) (snd (run current ws sched))
-          (outcome_exn how (snd (run current ws sched))) = true.
-Proof. exact (run_meets_spec current ws sched how). Qed.
+  spec_ok ws sched how (fst (run before_fix ws sched)) (snd (run before_fix ws sched))
+          (outcome_exn how (snd (run before_fix ws sched))) = true.
+Proof. exact (run_meets_spec before_fix ws sched how). Qed.
 
 (** * Readable corollaries: a single Responder *)
 Definition total (outs : list (list string)) : nat := List.length (List.concat outs).
@@ -332,24 +332,24 @@ Proof.
   unfold feed_stream. lia.
 Qed.
 
-Theorem current_chunk_independent_partial p r chunks :
+Theorem before_fix_chunk_independent_partial p r chunks :
   no_straddle_after_match p [] chunks = true ->
-  total (fst (feed_stream current [WResp p r] chunks)) = occ p (List.concat chunks).
+  total (fst (feed_stream before_fix [WResp p r] chunks)) = occ p (List.concat chunks).
 Proof.
-  intros G. apply responder_total. cbn [fix_index fix_tried current].
+  intros G. apply responder_total. cbn [fix_index fix_tried before_fix].
   rewrite guard_resp_only. exact G.
 Qed.
 
-Theorem repaired_chunk_independent p r chunks :
-  total (fst (feed_stream repaired [WResp p r] chunks)) = occ p (List.concat chunks).
+Theorem current_chunk_independent p r chunks :
+  total (fst (feed_stream current [WResp p r] chunks)) = occ p (List.concat chunks).
 Proof. apply responder_total. apply guard_stream_repaired. Qed.
 
 (** the same text delivered in two different ways gets the same number of answers *)
-Corollary repaired_same_text p r chunks1 chunks2 :
+Corollary current_same_text p r chunks1 chunks2 :
   List.concat chunks1 = List.concat chunks2 ->
-  total (fst (feed_stream repaired [WResp p r] chunks1)) =
-  total (fst (feed_stream repaired [WResp p r] chunks2)).
-Proof. intros E. rewrite !repaired_chunk_independent, E. reflexivity. Qed.
+  total (fst (feed_stream current [WResp p r] chunks1)) =
+  total (fst (feed_stream current [WResp p r] chunks2)).
+Proof. intros E. rewrite !current_chunk_independent, E. reflexivity. Qed.
 
 (** * Readable corollaries: a single FailingResponder *)
 (** reference: the stream has to fail iff some read completes the sentinel after a
@@ -387,13 +387,13 @@ Proof.
   apply judge_must_raise in J. exact J.
 Qed.
 
-Theorem current_failing_sentinel_partial p r s chunks :
+Theorem before_fix_failing_sentinel_partial p r s chunks :
   failing_region p r s chunks = true ->
-  snd (feed_stream current [WFail p r s] chunks) = must_raise p s [] false chunks.
-Proof. exact (failing_raises_iff current p r s chunks). Qed.
+  snd (feed_stream before_fix [WFail p r s] chunks) = must_raise p s [] false chunks.
+Proof. exact (failing_raises_iff before_fix p r s chunks). Qed.
 
-Theorem repaired_failing_sentinel p r s chunks :
-  snd (feed_stream repaired [WFail p r s] chunks) = must_raise p s [] false chunks.
+Theorem current_failing_sentinel p r s chunks :
+  snd (feed_stream current [WFail p r s] chunks) = must_raise p s [] false chunks.
 Proof. apply failing_raises_iff. apply guard_stream_repaired. Qed.
 
 (** * Threads are independent (any variant, any interleaving) *)
@@ -407,25 +407,25 @@ Proof.
   unfold run, feed_stream. auto.
 Qed.
 
-(** * Refutations (the code as it stands) *)
+(** * Historical: the code before the fixes did not have the property *)
 Definition ab : pattern := lit "ab".
 
-Theorem current_refuted_straddle :
+Theorem before_fix_refuted_straddle :
   exists p r chunks, nonempty p = true /\
-    total (fst (feed_stream current [WResp p r] chunks)) <> occ p (List.concat chunks).
+    total (fst (feed_stream before_fix [WResp p r] chunks)) <> occ p (List.concat chunks).
 Proof.
   exists ab, "y"%string, [chars "aba"; chars "b"]. split; [reflexivity|].
   vm_compute. discriminate.
 Qed.
 
-Theorem current_refuted_tried :
+Theorem before_fix_refuted_tried :
   exists p r s chunks, nonempty p = true /\ nonempty s = true /\
     occ p (List.concat chunks) = 0 /\                              (* no prompt anywhere *)
-    total (fst (feed_stream current [WFail p r s] chunks)) = 0 /\  (* nothing was ever sent *)
-    snd (feed_stream current [WFail p r s] chunks) = true /\       (* yet it raises *)
+    total (fst (feed_stream before_fix [WFail p r s] chunks)) = 0 /\  (* nothing was ever sent *)
+    snd (feed_stream before_fix [WFail p r s] chunks) = true /\       (* yet it raises *)
     must_raise p s [] false chunks = false /\
     (* while the same text in one read does not *)
-    snd (feed_stream current [WFail p r s] [List.concat chunks]) = false.
+    snd (feed_stream before_fix [WFail p r s] [List.concat chunks]) = false.
 Proof.
   exists (lit "pw"), "y"%string, (lit "Sorry"), [chars "xx "; chars "Sorry"].
   vm_compute. repeat split; reflexivity.
